@@ -10,6 +10,8 @@ Complete comparison of a finite configuration space:
      single-addressable rule for all 256 opcodes, IR / RESET vector addresses - against the Python
      tables and against Python execution
   V  Binary Ninja view segment tables
+  W  device wiring: the internal-memory offsets at which ON-key level, timer expiry and the key matrix show up on both
+     machines, against IMEMRegisters (the machines' bus glue hard-codes these offsets again)
 """
 from __future__ import annotations
 
@@ -19,6 +21,7 @@ import re
 from typing import Any, Dict, List, Optional, Tuple
 
 from ..core import VB
+from ..par import pmap, chunks
 from .. import rustbridge as rb
 from .. import drv
 
@@ -280,6 +283,8 @@ def run(ctx) -> None:
         vb.add("C17/view/lifter-internal-base", f"lifted IMEM pointers {consts} not inside the internal RAM segment", {"il": repr(il)[:200]})
     samples.append({"lifted_imem_pointers": consts})
 
+    n += _probe_wiring(vb, samples)
+    n += _probe_reljumps(h, vb, samples)
     ctx.merge_bucket(vb)
     ctx.level = "exploration"
     ctx.coverage.update({
@@ -289,7 +294,9 @@ def run(ctx) -> None:
         "rule": ("finite configuration space compared completely: 256 opcode rows (5 fields each), register widths/"
                  "sub-register layout across 6 declarations, 15 IMEM offsets, IMR/ISR masks, 16 address-space/timer/"
                  "snapshot constants, 15 PRE bytes x 2 operand slots and 256 opcodes for the single-addressable rule "
-                 "(behavioural, both cores), IR/RESET vectors (behavioural), all view segment pairs; every comparison is "
+                 "(behavioural, both cores), IR/RESET vectors (behavioural), all view segment pairs, device wiring (ON-key level, timer expiry, "
+                 "matrix key: for each of the 32 offsets E0..FF read by a program on both machines with and without the stimulus, the reacting "
+                 "offsets must be the ones IMEMRegisters gives to SSR/ISR/KIL); every comparison is "
                  "a distinct fact, so distinct_nontrivial == evaluations"),
         "samples": samples,
     })
@@ -407,6 +414,105 @@ def _probe_vectors(h, vb, samples) -> int:
             vb.add(f"C17/vector/{name}/rust", f"rust {name} continues at {rs_pc:#x}; the declared vector address "
                    f"{want_addr:#x} holds {want:#x}", {"insn": name})
     samples.append({"vector_probe": "IR / RESET with distinct vectors at FFFFA and FFFFD"})
+    return cnt
+
+
+# --------------------------------------------------------------------------------------
+# Device wiring: which internal-memory offset a device feature shows up at.  The machines hard-code these offsets a second
+# time (bus hooks, keyboard/timer glue); the declared table is IMEMRegisters.  For every offset E0..FF a program reads the
+# byte with and without the stimulus; the set of offsets that react must lie inside the registers the stimulus is documented
+# to drive (a machine that does not model a feature at all, like the Python machine's ON-key level, reacts nowhere, which is fine).
+WIRING = (
+    # name, stimulus events before the read, cfg overrides, registers allowed to react, primary register
+    ("on-key-level", (("press_on",),), {}, ("SSR", "ISR"), "SSR"),
+    ("timers", (), {"timer": (True, 2, 3)}, ("ISR",), "ISR"),
+    ("matrix-key", (("press", "KEY_Q"),), {"kol": 0x01, "kb_press": 1}, ("KIL", "ISR"), "KIL"),
+)
+
+
+def _wiring_reads(args):
+    from .. import machine as M
+    offs, = args
+    h = rb.harness()
+    out = {}
+    for off in offs:
+        # eight NOPs, then MV A,(off) with the direct-addressing prefix; the handler returns at once
+        main = bytes([0x00] * 8) + bytes([0x32, 0x80, off]) + bytes([0x00] * 4)
+        for name, stim, over, _allowed, _prim in WIRING:
+            for with_stim in (False, True):
+                cfg = M.default_cfg(main, bytes([0x01]), imr=0, timer=over.get("timer", (False, 0, 0)) if with_stim else (False, 0, 0),
+                                    kb_irq=True, kb_press=over.get("kb_press"), kol=over.get("kol"))
+                hist = (list(stim) if with_stim else []) + [("step",)] * 9
+                try:
+                    py = M.run_py(cfg, hist, obs_each=False)[-1]["regs"]["A"]
+                except Exception as exc:  # noqa: BLE001
+                    py = f"{type(exc).__name__}"
+                rs = M.run_rs(h, cfg, hist, obs_each=False)[-1]["regs"]["A"]
+                out[(name, off, with_stim)] = (py, rs)
+    return out
+
+
+def _probe_wiring(vb, samples) -> int:
+    imem = {r.name: int(r.value) for r in O.IMEMRegisters}
+    offs = list(range(0xE0, 0x100))
+    res: Dict[Any, Any] = {}
+    for part in pmap(_wiring_reads, [(c,) for c in chunks(offs, 16)]):
+        res.update(part)
+    cnt = 0
+    for name, _stim, _over, allowed, prim in WIRING:
+        allow = {imem[a] for a in allowed}
+        for idx, impl in ((0, "python"), (1, "rust")):
+            react = {off for off in offs if res[(name, off, False)][idx] != res[(name, off, True)][idx]}
+            cnt += len(offs)
+            for off in sorted(react - allow):
+                vb.add(f"C17/device-wiring/{impl}/{name}/reacts-at-{off:02X}", f"{impl} machine: the {name} stimulus changes what is read at internal offset "
+                       f"{off:#04x} ({res[(name, off, False)][idx]} -> {res[(name, off, True)][idx]}); IMEMRegisters places "
+                       f"{'/'.join(allowed)} at {', '.join(hex(imem[a]) for a in allowed)}", {"wiring": name, "impl": impl, "offset": off})
+        samples.append({"wiring_" + name: {"python": sorted(hex(off) for off in offs if res[(name, off, False)][0] != res[(name, off, True)][0]),
+                                            "rust": sorted(hex(off) for off in offs if res[(name, off, False)][1] != res[(name, off, True)][1])}})
+    return cnt
+
+
+def _probe_reljumps(h, vb, samples) -> int:
+    """The direction of a relative jump is part of its operand shape in the Python table (ImmOffset('+') / ImmOffset('-')); the Rust
+    table only says ImmOffset and keeps the direction in the evaluator.  Every row whose Python operand is an ImmOffset is executed on
+    the Rust core under all four C/Z values with two displacements and must land where the Python row says (taken or not is the
+    Python core's verdict for the same flags)."""
+    from sc62015.pysc62015.emulator import Emulator
+    from binja_test_mocks.eval_llil import Memory
+    cnt = 0
+    for op in range(256):
+        row = OPCODES.get(op)
+        if row is None:
+            continue
+        if not isinstance(row, tuple):
+            continue
+        ops = row[1].ops or []
+        signs = [o.sign for o in ops if isinstance(o, O.ImmOffset)]
+        if len(signs) != 1 or len(ops) != 1:
+            continue
+        sign = signs[0]
+        for disp in (0x05, 0x85):
+            for f in range(4):
+                mem0 = {0x1000: op, 0x1001: disp}
+                regs0 = {"PC": 0x1000, "F": f, "S": 0xB9000, "U": 0xB8800}
+                store = dict(mem0)
+                emu = Emulator(Memory(lambda a: store.get(a & 0xFFFFFF, 0), lambda a, v: store.__setitem__(a & 0xFFFFFF, v & 0xFF)), reset_on_init=False)
+                for kx, vx in regs0.items():
+                    emu.regs.set(E.RegisterName[kx], vx)
+                emu.execute_instruction(0x1000)
+                py_pc = emu.regs.get(E.RegisterName.PC)
+                rs_pc = h.call({"cmd": "exec", "regs": regs0, "mem": [[a, v] for a, v in mem0.items()], "steps": 1})["regs"]["PC"]
+                cnt += 1
+                taken = py_pc != 0x1002
+                want = (0x1002 + disp if sign == "+" else 0x1002 - disp) & 0xFFFFF if taken else 0x1002
+                if py_pc != want:
+                    vb.add(f"C17/rel-jump-direction/python/op={op:02X}", f"python {op:02X} {disp:02X} with F={f}: PC={py_pc:#x}, the table row says "
+                           f"ImmOffset('{sign}') -> {want:#x}", {"reljump": op})
+                if rs_pc != want:
+                    vb.add(f"C17/rel-jump-direction/rust/op={op:02X}", f"rust {op:02X} {disp:02X} with F={f}: PC={rs_pc:#x}; the Python table row says "
+                           f"ImmOffset('{sign}') -> {want:#x}", {"reljump": op})
+    samples.append({"rel_jump_probe": f"{cnt} executions of the ImmOffset rows"})
     return cnt
 
 
